@@ -1,0 +1,44 @@
+//go:build verif
+
+package main
+
+import (
+	"net/http"
+	neturl "net/url"
+	"os"
+	"path"
+	"strings"
+)
+
+// verifRedirect sends every request to <base>/<basename of the requested path>.
+type verifRedirect struct {
+	base *neturl.URL
+	next http.RoundTripper
+}
+
+func (v verifRedirect) RoundTrip(req *http.Request) (*http.Response, error) {
+	r2 := req.Clone(req.Context())
+	u := *v.base
+	u.Path = strings.TrimSuffix(v.base.Path, "/") + "/" + path.Base(req.URL.Path)
+	u.RawPath = ""
+	r2.URL = &u
+	r2.Host = u.Host
+	return v.next.RoundTrip(r2)
+}
+
+// With BIP39_VERIF_WORDLIST_URL set (http://host:port/dir or file:///dir) the
+// tool fetches <lang>.txt from there instead of the upstream repository.
+// It exists only in builds with the "verif" tag.
+func init() {
+	base := os.Getenv("BIP39_VERIF_WORDLIST_URL")
+	if base == "" {
+		return
+	}
+	u, err := neturl.Parse(base)
+	if err != nil {
+		panic("BIP39_VERIF_WORDLIST_URL: " + err.Error())
+	}
+	tr := &http.Transport{}
+	tr.RegisterProtocol("file", http.NewFileTransport(http.Dir("/")))
+	http.DefaultClient = &http.Client{Transport: verifRedirect{base: u, next: tr}}
+}
